@@ -26,6 +26,7 @@ Str = TypeDesc("str", None)
 Real = TypeDesc("real")
 IntList = TypeDesc("list", TypeDesc("int", None, None), None)  # list of ints of any length
 BytesList = TypeDesc("byteslist")
+PairList = TypeDesc("pairlist")
 Chunks = TypeDesc("chunks")
 
 
